@@ -22,6 +22,7 @@ def main():
     ap.add_argument("--benign", action="store_true")
     ap.add_argument("--tier", default="quick")
     ap.add_argument("--skip-baseline", action="store_true")
+    ap.add_argument("--skip-slow", action="store_true", help="with --all-checks: run C14/C15 only where expected")
     a = ap.parse_args()
     items = []
     if a.seeded:
@@ -56,6 +57,8 @@ def main():
                 rec["baseline_ok"] = rc == 0
                 rec["baseline"] = out.strip().splitlines()[-2:] if out.strip() else []
             for c in (ALL if a.all_checks else it["expected"]):
+                if a.skip_slow and c in ("C14", "C15") and c not in it["expected"]:
+                    continue
                 t0 = time.time()
                 rc, out = sh(["/venv/bin/python", os.path.join(ROOT, "check.py"), c, "--tier", a.tier, "--no-evidence"], env)
                 first = next((l for l in out.splitlines() if l.startswith("  monitor=")), "")
